@@ -73,6 +73,20 @@ def t_incompat3():
     return g.set_start_nodes({r}), dict(sel=[c1, c2])
 
 
+def t_shared_option():
+    """option O2 of the permanent choice C1 is also an option of the nested choice C2 (under O1) and incompatible with
+    O1: vectors (C1=O1, C2=O2) must be corrected, and how depends on which of the two is fixed (seeded graph rnd5001)"""
+    B, N, *_ = _imp()
+    g = B()
+    r, e4 = N('R'), N('E4')
+    o1, o2, o3, o5, o6 = N('O1'), N('O2'), N('O3'), N('O5'), N('O6')
+    c1 = g.add_selection_choice('C1', r, [o1, o2, o3])
+    g.add_edges([(o1, e4)])
+    c2 = g.add_selection_choice('C2', e4, [o2, o5, o6])
+    g.add_incompatibility_constraint([o1, o2])
+    return g.set_start_nodes({r}), dict(sel=[c1, c2])
+
+
 def t_forced():
     B, N, *_ = _imp()
     g = B()
@@ -553,7 +567,7 @@ def t_conn_dv():
 
 
 TEMPLATES = {
-    'two_indep': t_two_indep, 'nested': t_nested, 'nested3': t_nested3, 'incompat': t_incompat, 'incompat3': t_incompat3, 'forced': t_forced,
+    'two_indep': t_two_indep, 'nested': t_nested, 'nested3': t_nested3, 'incompat': t_incompat, 'incompat3': t_incompat3, 'shared_option': t_shared_option, 'forced': t_forced,
     'dv': t_dv, 'dv_single': t_dv_single, 'dv_or_existence': t_dv_or_existence, 'dv_linked': t_dv_linked, 'dv_or_direct': t_dv_or_direct, 'dv_same_name': t_dv_same_name, 'dv_linked3_cond': t_dv_linked3_cond, 'sel_linked': t_sel_linked, 'sel_forced_linked': t_sel_forced_linked,
     'conn_simple': t_conn_simple, 'conn_cond': t_conn_cond, 'conn_opt_src': t_conn_opt_src,
     'conn_infeasible_scenario': t_conn_infeasible_scenario, 'conn_infeasible_dv': t_conn_infeasible_dv, 'conn_group': t_conn_group,
@@ -589,9 +603,17 @@ class stub_selector:
         return False
 
 
+def get_template(name):
+    """hand-written template, or 'rnd<seed>' from the seeded generator (pools/dsg_random.py)"""
+    if name.startswith('rnd'):
+        from pools import dsg_random
+        return dsg_random.random_template(int(name[3:]))
+    return TEMPLATES[name]()
+
+
 def make_processor(name, encoder_type=None):
     from adsg_core import GraphProcessor
-    g, info = TEMPLATES[name]()
+    g, info = get_template(name)
     with stub_selector():
         gp = GraphProcessor(g, encoder_type=encoder_type)
         _ = gp.des_vars  # triggers the encoding of connection choices inside the stubbed region
